@@ -614,7 +614,12 @@ static int record(const json &plan) {
     const int steps = plan.value("steps", 100);
     const int nmax = plan.value("nmax", 6);
     (void)nmax;
-    const std::vector<std::string> ops = plan.at("ops");
+    std::vector<std::string> ops = plan.at("ops");
+    // index embedding: the history uses vertices 0..k-1, the real object the vertices embed[0..k-1]
+    // of a graph with embed[k-1]+1 vertices (one resize at the start of every history)
+    const std::vector<unsigned> embed = plan.value("embed", std::vector<unsigned>{});
+    if (!embed.empty())
+        ops.erase(std::remove(ops.begin(), ops.end(), std::string("resize")), ops.end());
     const std::vector<int> labels = plan.value("labels", std::vector<int>{0, 1, 2});
     const std::vector<int> mults = plan.value("mults", std::vector<int>{0, 1, 2, 3});
     const std::vector<int> weights = plan.value("weights", std::vector<int>{-1, 0, 2, 3});
@@ -660,6 +665,8 @@ static int record(const json &plan) {
         const int nmax = isDense ? denseN : (bigEvery && h % bigEvery == bigEvery - 1) ? nmaxBase * 2 : nmaxBase;
         const int steps = isDense ? fillSteps + denseN + 60 : plan.value("steps", 100);
         std::unique_ptr<IObj> o = facs[famIdx]();
+        if (!embed.empty())
+            o->setEmbedding(embed);
         os << json({{"c", {{"op", "reset"}}}}).dump() << "\n";
         json hist = json::array();
         int n = 0;
@@ -686,6 +693,8 @@ static int record(const json &plan) {
             c["op"] = op;
             if (op == "resize") {
                 int k = (s == 0) ? (isDense ? nmax : (int)pick(nmax + 1)) : n + (int)pick(nmax - n + 1);
+                if (!embed.empty())
+                    k = (int)embed.size();
                 if (!bad.empty() && n > 0 && pick(6) == 0)
                     k = (int)pick(n); // invalid: shrinking
                 c["k"] = k;
